@@ -96,17 +96,26 @@ def simulator_timestep_wiring(ctx, sim_kind, shape):
         getattr(sim, state_name)[...] = st
     st0, u_before = st.copy(), u.copy()
 
-    def run():
-        a = sim.compute_stable_timestep(dt_prefac=pre)
-        b = mod.compute_advection_diffusion_stable_timestep(velocity_field=u.copy(), velocity_magnitude_field=(ctx.array("buf2", shape) if ctx.sym else np.zeros(shape, dtype=ctx.real_t)),
-                                                            grid_dim=dim, dx=sim.dx, cfl=cfl, kinematic_viscosity=nu, real_t=sim.real_t)
-        ctx.eq("dt(prefac)=prefac*dt(1)", a, pre * b)
-        # asking for the time step is a query: the flow state is not touched (only the scratch buffer is used)
-        ctx.same_array("velocity_untouched_by_the_query", sim.velocity_field, u_before)
-        ctx.same_array("state_untouched_by_the_query", getattr(sim, state_name), st0)
-        return a
+    # (the whole scenario is re-run per path by the driver's exploration: every path starts from a freshly built simulator)
+    def reference(vel, nu_, cfl_, tag):
+        return mod.compute_advection_diffusion_stable_timestep(velocity_field=vel.copy(), velocity_magnitude_field=(ctx.array("buf2" + tag, shape) if ctx.sym else np.zeros(shape, dtype=ctx.real_t)),
+                                                               grid_dim=dim, dx=sim.dx, cfl=cfl_, kinematic_viscosity=nu_, real_t=sim.real_t)
 
-    explore(ctx, run)
+    a = sim.compute_stable_timestep(dt_prefac=pre)
+    ctx.eq("dt(prefac)=prefac*dt(1)", a, pre * reference(u, nu, cfl, ""))
+    # asking for the time step is a query: the flow state is not touched (only the scratch buffer is used)
+    ctx.same_array("velocity_untouched_by_the_query", sim.velocity_field, u_before)
+    ctx.same_array("state_untouched_by_the_query", getattr(sim, state_name), st0)
+    # history: the query always answers for the velocity field / viscosity / CFL number the simulator holds NOW, also when
+    # they changed since the previous query without a time step in between
+    u2 = ctx.array("u_later", (dim, *shape))
+    sim.velocity_field[...] = u2
+    a2 = sim.compute_stable_timestep(dt_prefac=pre)
+    ctx.eq("second_query_answers_for_the_current_velocity", a2, pre * reference(u2, nu, cfl, "b"))
+    nu2, cfl2 = ctx.scalar("nu_later", positive=True), ctx.scalar("cfl_later", positive=True)
+    sim.kinematic_viscosity, sim.cfl = nu2, cfl2
+    a3 = sim.compute_stable_timestep(dt_prefac=pre)
+    ctx.eq("third_query_answers_for_the_current_viscosity_and_cfl", a3, pre * reference(u2, nu2, cfl2, "c"))
 
 
 @scenario
